@@ -22,6 +22,7 @@ Inductive op :=
 | OUpdate (l : items)              (* d.update(list_of_pairs)  — also dict / kwargs forms *)
 | OUpdateMD (l : items)            (* d.update(MultiDict(l)) : Mapping protocol, key by key *)
 | OExtend (l : items)              (* d.extend(list | dict | MultiDict) *)
+| OExtendSelf                      (* d.extend(d), d.extend(d.items()), d.extend(iter(d.items())): the argument aliases d *)
 | OClear
 | OCopy.                           (* d = d.copy() *)
 
@@ -137,6 +138,7 @@ Section MD.
     | OUpdate u => (update_i u l, VNone)
     | OUpdateMD u => (update_md_i u l, VNone)
     | OExtend u => (l ++ u, VNone)
+    | OExtendSelf => (l ++ l, VNone)
     | OClear => ([], VNone)
     | OCopy => (l, VNone)
     end.
